@@ -17,7 +17,10 @@ pub const DIRS: &[&str] = &["a", "b", "src", "docs", "my dir", "v1.2", "lib", "p
 pub const STEMS: &[&str] = &[
     "main", "util", "x", "mod", "data", "conf", "app", "b", "my file", "v2.conf", "a", "[id]", "{slug}", "odd\\name",
 ];
-pub const HASH_EXTS: &[&str] = &["py", "rb", "sh"];
+/// Languages whose generated content needs no wrapper (any line is acceptable between comments).
+pub const HASH_EXTS: &[&str] = &["py", "rb", "sh", "py", "rb", "sh", "py", "md", "markdown", "html"];
+/// Extensions blockwatch does not know; `-E <ext>=py|rb|sh` maps them to a grammar.
+pub const CUSTOM_EXTS: &[&str] = &["cfg", "txt", "bzl", "in"];
 pub const WRAP_EXTS: &[&str] = &["rs", "js", "go", "ts", "java", "cs", "c", "cpp", "swift", "php", "toml"];
 
 #[derive(Clone, Debug)]
@@ -41,6 +44,11 @@ pub struct GenCfg {
     pub wrap_langs: bool,
     /// Rich content (quotes, backslashes, non-ASCII) in Lua/AI blocks.
     pub rich: bool,
+    /// Probability (per cent) that one file gets an extension blockwatch does not know, usually
+    /// together with a `-E ext=lang` mapping; without the mapping (only if `unmapped_ext`) the
+    /// file has to be skipped silently.
+    pub p_custom_ext: usize,
+    pub unmapped_ext: bool,
 }
 
 impl Default for GenCfg {
@@ -62,6 +70,8 @@ impl Default for GenCfg {
             dirs: true,
             wrap_langs: true,
             rich: true,
+            p_custom_ext: 12,
+            unmapped_ext: true,
         }
     }
 }
@@ -544,7 +554,27 @@ impl<'a> Gen<'a> {
 
     pub fn gen_files(&mut self, cfg: &GenCfg) {
         let n = self.rng.range(cfg.files.0, cfg.files.1);
-        let paths = self.gen_paths(n, cfg.dirs, cfg.wrap_langs);
+        let mut paths = self.gen_paths(n, cfg.dirs, cfg.wrap_langs);
+        if self.rng.chance(cfg.p_custom_ext, 100) {
+            let cands: Vec<usize> = (0..paths.len())
+                .filter(|&i| [".py", ".rb", ".sh"].iter().any(|e| paths[i].ends_with(e)) && !paths[i].contains('\\'))
+                .collect();
+            if !cands.is_empty() {
+                let i = *self.rng.pick(&cands);
+                let (stem, lang) = paths[i].rsplit_once('.').map(|(s, e)| (s.to_string(), e.to_string())).unwrap();
+                let ext = *self.rng.pick(CUSTOM_EXTS);
+                let np = format!("{stem}.{ext}");
+                let mapped = !cfg.unmapped_ext || self.rng.chance(3, 4);
+                let clash = paths.iter().any(|p| *p == np)
+                    || self.world.args.extensions.iter().any(|(k, _)| k == ext);
+                if !clash {
+                    paths[i] = np;
+                    if mapped {
+                        self.world.args.extensions.push((ext.to_string(), lang));
+                    }
+                }
+            }
+        }
         for p in paths {
             let nb = self.rng.range(cfg.blocks.0, cfg.blocks.1);
             let mut f = FileSpec {
@@ -552,6 +582,7 @@ impl<'a> Gen<'a> {
                 tab_tags: self.rng.chance(1, 10),
                 bom: self.rng.chance(1, 10),
                 spelling: if self.rng.chance(1, 6) { self.rng.next_u64() | 1 } else { 0 },
+                block_comments: if self.rng.chance(1, 5) { self.rng.next_u64() | 1 } else { 0 },
                 ..Default::default()
             };
             for _ in 0..nb {
